@@ -368,7 +368,9 @@ def Sim.svcStep (s : Sim) (j : Json) : Option (Sim × Json) :=
       ("json", match r with | .ok v => v.toJson | _ => Json.null),
       ("notifs", listJ (fun (n : Notification) => Json.mkObj [("topic", Json.str n.topic), ("cuid", Json.str n.cuid),
           ("duid", Json.str n.duid), ("sseq", jnat n.sseq)]) ns)])
-  | "store" => some (s, Json.mkObj [("store", storeJ s.store)])
+  | "store" =>
+    let st := if getB j "lite" then { s.store with snapshots := [], userDocs := [] } else s.store
+    some (s, Json.mkObj [("store", storeJ st)])
   | _ => none
 
 def Sim.step (s : Sim) (j : Json) : Sim × Json :=
